@@ -162,6 +162,7 @@ let diag_json (d : diag) : json =
       | KExpect MClosing -> "expected closing delimiter"
       | KExpect MExpression -> "expected expression"
       | KExpect MConfig -> "unable to parse configuration object"
+      | KExpect MNesting -> "blocks, parentheses and argument lists may be nested at most " ^ string_of_int (int_of_nat max_nesting_depth) ^ " levels deep"
       | KExpect MEmpty -> "") in
   Arr [ Str msg; jn d.d_lo; jn d.d_hi ]
 
